@@ -304,6 +304,26 @@ def _run(ctx, libdir, rebound, ft, E, rng, tmpd):
                       "property=C07 every refused append to a file without a complete first snapshot leaks an open FILE* (%d descriptors after %d saves); "
                       "when descriptors run out fopen returns NULL and fseek(NULL) crashes the process" % (r["fd_growth"], len(scen[si]["segs"])))
 
+    # ---- trailer members / field sizes near the integer limits: opening must neither crash nor hang, and agree with the model
+    cw = ["next_max", "next_neg", "next_m1", "prev_neg", "prev_max", "idx_neg", "size_big", "size_2_63", "size_m16", "size_m1", "last_next_max"]
+    cres = c06.run_jobs(libdir, [[{"kind": "crafted", "what": w, "bytes": True}] for w in cw], timeout=60)
+    cbody = L.PRELUDE + L.rcfg_text(ft); cterms = []
+    for w, r in zip(cw, cres):
+        r0 = r[0] if isinstance(r, list) else None
+        ctx.case(key=("crafted", w))
+        if r0 is None or "index" not in r0:
+            ctx.violation("crafted-limits-open", {"what": w, "result": str(r)[:300], "how": "tools/c06_driver.py job_crafted"}, True,
+                          "property=C07 opening an archive whose %s is near the integer limits kills or hangs the process: %s" % (w, str(r)[:120]))
+            continue
+        cbody += "Definition c_%s := %s.\n" % (w, L.nl(bytes.fromhex(r0["file"])))
+        ok_, cw_, idx_ = r0["index"]
+        cterms.append("(open_flat R c_%s, %s)" % (w, L.coq_open((ok_, cw_, [tuple(x) for x in idx_]))))
+    cbody += "Eval vm_compute in (bad_open [%s]).\n" % ";".join(cterms)
+    cok, cout = vlib.coq_eval("c07_crafted", cbody, timeout=300)
+    cbad = vlib.parse_coq_list_nat(cout) if cok else None
+    ctx.obligation("correspondence:C07 model open == library open on %d archives with trailer members / field sizes near the integer limits" % len(cterms),
+                   len(cterms) >= 8 and cbad == [], "differing %s %s" % ([cw[i] for i in (cbad or [])], cout[-300:] if cbad is None else ""))
+
     # ---- the append performed ON a crash image (corruption test, repair walk, in-place patch, write): model save_append vs library
     r1res = c06.run_jobs(libdir, [[j] for j in r1_jobs], timeout=120)
     terms = []
